@@ -277,6 +277,30 @@ pub fn check(c: &mut Case, flags: u32, specs: &[AssetSpec], name: &str) {
             }
         }
     }
+    // the other route: one spec at a time through AssetSpec::append / AssetSpec::from_stream
+    for (i, s) in specs.iter().take(3).enumerate() {
+        let r = c.lib("AssetSpec::append + AssetSpec::from_stream", || -> Result<AssetSpec, String> {
+            let mut a = BinArchive::new(Endian::Little);
+            s.append(&mut a).map_err(|e| e.to_string())?;
+            let mut rd = mila::BinArchiveReader::new(&a, 0);
+            AssetSpec::from_stream(&mut rd).map_err(|e| e.to_string())
+        });
+        match r {
+            None => {}
+            Some(Err(e)) => {
+                let mut s2 = s.clone();
+                let unrepresentable = s.name.as_deref().map(crate::refs::strings::unencodable).unwrap_or(false) || (0..NSTR).any(|k| str_field(&mut s2, k).as_deref().map(crate::refs::strings::unencodable).unwrap_or(false));
+                if !unrepresentable {
+                    c.fail("two_routes", "append_from_stream_err", format!("{}: spec #{} does not survive append + from_stream: {}; spec={}", name, i, e, spec_describe(s)));
+                }
+            }
+            Some(Ok(t)) => {
+                if let Some(d) = spec_diff(s, &t) {
+                    c.fail("two_routes", "append_from_stream_differs", format!("{}: spec #{} changed through append + from_stream: {}; spec={}", name, i, d, spec_describe(s)));
+                }
+            }
+        }
+    }
     // round trip through the library
     let back = c.lib("BinArchive::from_bytes + AssetBinary::from_archive", || -> Result<AssetBinary, String> {
         let img_t = crate::monitor::tight(&img);
